@@ -102,7 +102,9 @@ func main() {
 		}
 	}
 	var hs []history
-	var fhs []history // histories with injected storage faults (C18 retention oracle only, no T leg)
+	// histories of the search-only legs, outside the model (no T leg): injected storage faults (C18
+	// retention and C04 playlist-history oracles), init-file regeneration failures (C04), slow readers (C05)
+	var fhs []history
 	if *replay != "" {
 		raw, err := os.ReadFile(*replay)
 		if err != nil {
@@ -115,7 +117,7 @@ func main() {
 			panic(err)
 		}
 		hs = []history{rp.Input}
-		if len(rp.Input.Faults) > 0 {
+		if rp.Input.outsideModel() {
 			hs, fhs = nil, []history{rp.Input}
 		}
 	} else {
@@ -143,7 +145,7 @@ func main() {
 			hs = append(hs, genHistory(r, long))
 		}
 	}
-	if *replay == "" && (*prop == "" || *prop == "C18") {
+	if *replay == "" && (*prop == "" || *prop == "C18" || *prop == "C04") {
 		// Storage faults are outside C18's quantifier; this leg exercises the error paths of a rotation
 		// on single-stream MPEG-TS / fMP4 muxers, where the unchanged code recovers from a failed file
 		// creation (with several streams or in Low-Latency mode it panics: DESIGN.md 12.3, observation O1).
@@ -168,6 +170,22 @@ func main() {
 				}
 			}
 			fhs = append(fhs, h)
+		}
+	}
+	if *replay == "" && (*prop == "" || *prop == "C04") {
+		// Init-file regeneration failures (a malformed in-band SPS) are outside the model as well; on
+		// single-stream fMP4 muxers the unchanged code recovers, and the playlist-history oracle of C04
+		// must keep holding across the failed rotation.
+		nf := count / 5
+		for i := 0; i < nf; i++ {
+			for try := 0; try < 40; try++ {
+				r := rng.New(*seed^0x1417FA11, uint64(i*40+try))
+				h := genHistory(r, false)
+				if genInitFailure(r, &h) {
+					fhs = append(fhs, h)
+					break
+				}
+			}
 		}
 	}
 	for i := range hs {
@@ -382,10 +400,19 @@ func main() {
 	faultWrites := 0
 	for _, co := range fouts {
 		j, _ := json.Marshal(co.h)
-		dist["storage-fault-histories"]++
-		for _, rc := range co.res.results {
-			if rc == 11 {
-				faultWrites++
+		if co.h.Leg != "" {
+			dist[co.h.Leg+"-histories"]++
+			for _, rc := range co.res.results {
+				if rc == 11 {
+					dist[co.h.Leg+"-writes-failed"]++
+				}
+			}
+		} else {
+			dist["storage-fault-histories"]++
+			for _, rc := range co.res.results {
+				if rc == 11 {
+					faultWrites++
+				}
 			}
 		}
 		for _, f := range co.fails {
@@ -395,7 +422,7 @@ func main() {
 			fails = append(fails, failOut{Signature: f.Signature, What: f.What, Input: j, Prop: f.Prop})
 		}
 	}
-	if len(fouts) > 0 {
+	if dist["storage-fault-histories"] > 0 {
 		dist["storage-fault-writes-failed"] = faultWrites
 	}
 	for _, m := range mismatches {
@@ -428,7 +455,8 @@ func main() {
 			"H264 picture reordering (two in three H264 histories: real slice headers, pic_order_cnt_type 0 parameter sets with 0-3 B pictures between anchors, POC wrap, frame / field-style POC numbering; the abstract dts is what mediacommon's h264.DTSExtractor returns for the concrete units), " +
 			"AV1 sequence headers with and without an explicit colour description, boundary aiming (one history in three: random-access units of the leading track exactly at / one tick before / one tick after the tick at which SegmentMinDuration is reached, Low-Latency also at the frozen part duration, segment starts on arbitrary ticks), cross-track skew; distinct by SHA-256 of the history; " +
 			"non-trivial = at least 2 segments published and at least 3 rotations; " +
-			"C18 only: in addition evaluations/5 single-stream MPEG-TS / fMP4 histories in which each storage NewFile call fails with probability 1/6 (retention oracle only, outside the model; counted under storage-fault-histories, not under evaluations)",
+			"C18 and C04 only: in addition evaluations/5 single-stream MPEG-TS / fMP4 histories in which each storage NewFile call fails with probability 1/6 (retention oracle of C18 and playlist-history oracle of C04 only, outside the model; counted under storage-fault-histories, not under evaluations); " +
+			"C04 only: in addition evaluations/5 single-stream fMP4 H264 histories with 1-3 windows that open with a lone malformed SPS and continue with IDR units without in-band parameter sets, so that one init-file regeneration fails and that WriteH264 returns an error (playlist-history oracle only, outside the model; counted under init-failure-histories)",
 		"samples":                       samples,
 		"distribution":                  dist,
 		"oracle_failures":               fails,
